@@ -238,6 +238,55 @@ def c_stmt(n):
     raise Untranslatable(type(n).__name__)
 
 
+def node_spans(node):
+    """{path: (pos, endpos)} of every node of a SELECT, paths as in Model/Locate.v."""
+    out = {}
+
+    def span(n, path):
+        pi = getattr(n, 'parseinfo', None)
+        out[','.join(map(str, path))] = [pi.pos, pi.endpos] if pi is not None else None
+
+    def ex(n, path):
+        if not isinstance(n, ast.Node):
+            return
+        span(n, path)
+        if isinstance(n, ast.Function):
+            for i, a in enumerate(n.operands or []):
+                ex(a, path + [i])
+        elif isinstance(n, (ast.Attribute, ast.Subscript, ast.UnaryOp)):
+            ex(n.operand, path + [0])
+        elif isinstance(n, ast.BinaryOp):
+            ex(n.left, path + [0])
+            ex(n.right, path + [1])
+        elif isinstance(n, ast.Between):
+            ex(n.operand, path + [0])
+            ex(n.lower, path + [1])
+            ex(n.upper, path + [2])
+        elif isinstance(n, ast.BoolOp):
+            for i, a in enumerate(n.args):
+                ex(a, path + [i])
+        elif isinstance(n, ast.Select):
+            if not isinstance(n.targets, ast.Asterisk):
+                for i, t in enumerate(n.targets):
+                    ex(t.expression, path + [0, i])
+            f = n.from_clause
+            if isinstance(f, ast.Select):
+                ex(f, path + [1])
+            elif f is not None:
+                span(f, path + [1])
+                if isinstance(f, ast.From) and f.expression is not None:
+                    ex(f.expression, path + [1, 0])
+            ex(n.where_clause, path + [2])
+            if n.group_by is not None:
+                for i, c in enumerate(n.group_by.columns):
+                    ex(c, path + [3, i])
+                ex(n.group_by.having, path + [4])
+            for i, o in enumerate(n.order_by or []):
+                ex(o.column, path + [5, i])
+    ex(node, [])
+    return out
+
+
 def py_params(p):
     """JSON-able parameter description -> the Python object handed to compile()."""
     if p is None:
@@ -457,7 +506,7 @@ def observe(case):
     e_ = env()
     text, params = case['text'], case.get('params')
     rec = {'phase': 'ok', 'cls': None, 'kind': None, 'msg': None, 'problems': [], 'coq': None, 'summary': None,
-           'where': None, 'untranslatable': None}
+           'where': None, 'untranslatable': None, 'spans': None, 'loc': None}
     try:
         node = bq_parser.parse(text)
     except Exception as e:  # noqa: BLE001
@@ -469,6 +518,8 @@ def observe(case):
     try:
         rec['coq'] = f'{c_params_case(case)} {c_stmt(node)}'
         rec['fold_sensitive'] = fold_sensitive(node)
+        if isinstance(node, ast.Select):
+            rec['spans'] = node_spans(node)
     except Untranslatable as u:
         rec['untranslatable'] = str(u)
     except Exception as u:  # noqa: BLE001
@@ -485,7 +536,9 @@ def observe(case):
         if is_fold_error(e):
             rec.update(phase='fold-error', cls=cls, msg=repr(e)[:200], where=list(where_raised(e)))
             return rec
-        rec.update(phase='compile', cls=cls, kind=kind_of(e), msg=str(e)[:200], problems=problems, where=list(where_raised(e)))
+        pi = getattr(e, 'parseinfo', None)
+        rec.update(phase='compile', cls=cls, kind=kind_of(e), msg=str(e)[:200], problems=problems, where=list(where_raised(e)),
+                   loc=[pi.pos, pi.endpos] if pi is not None else None)
         return rec
     try:
         rec['summary'] = summarize(cq)
@@ -814,6 +867,28 @@ def model_many(cases, tag='c05'):
     return core.coq_eval(tag, ['Base.PyValue', 'Model.Compile'], exprs, shard=150)
 
 
+def model_locations(recs, tag='c05l'):
+    """Model/Locate.v on rejected SELECTs: the path of the node the CompilationError is about."""
+    sc = schema_coq()
+    exprs = [f'(locate_out {sc} {r["coq"]})' for r in recs]
+    return core.coq_eval(tag, ['Base.PyValue', 'Model.Compile', 'Model.Locate'], exprs, shard=150)
+
+
+def location_mismatch(rec, mloc):
+    """None when the location the implementation attached is the span of the node the model names."""
+    if mloc[0] == 3 or rec.get('spans') is None:
+        return None
+    if rec['cls'] == 'other:TypeError':
+        return None
+    if mloc[0] == 0:
+        return 'model accepts'
+    if mloc[0] == 1:
+        return None if rec['loc'] is None else f'implementation location {rec["loc"]}, model: no location'
+    key = ','.join(map(str, mloc[1]))
+    want = rec['spans'].get(key, 'no such node')
+    return None if want == rec['loc'] else f'implementation location {rec["loc"]}, model: node at path [{key}] = {want}'
+
+
 def model_expected(rec):
     """What the model output must look like for this observation (None = not comparable)."""
     if rec['phase'] in ('parse', 'fold-error') or rec['coq'] is None:
@@ -1132,10 +1207,15 @@ def run(tier, rng, use_model=True):
         res = model_many([recs[i] for i in idx])
         for i, m in zip(idx, res):
             models[i] = m
+    locs = [None] * len(cases)
+    if use_model:
+        lidx = [i for i, r in enumerate(recs) if r['phase'] == 'compile' and r['coq'] is not None and r.get('spans') is not None]
+        for i, m in zip(lidx, model_locations([recs[i] for i in lidx])):
+            locs[i] = m
     violations, seen = [], {}
-    hist = {'stream': {}, 'rule': {}, 'phase': {}, 'class': {}, 'kind': {}, 'tags': {}}
+    hist = {'stream': {}, 'rule': {}, 'phase': {}, 'class': {}, 'kind': {}, 'tags': {}, 'location': {}}
     compared = 0
-    for c, r, m in zip(cases, recs, models):
+    for i_case, (c, r, m) in enumerate(zip(cases, recs, models)):
         hist['stream'][c['stream']] = hist['stream'].get(c['stream'], 0) + 1
         rk = c['rule'].split(':')[0] if c['stream'] == 'overload' else c['rule']
         hist['rule'][rk] = hist['rule'].get(rk, 0) + 1
@@ -1147,7 +1227,16 @@ def run(tier, rng, use_model=True):
             hist['kind'][str(r['kind'])] = hist['kind'].get(str(r['kind']), 0) + 1
         if m is not None:
             compared += 1
-        for kind, sig, summary in judge(c, r, m):
+        extra = []
+        if locs[i_case] is not None:
+            lk = {0: 'accepted', 1: 'none', 2: 'node', 3: 'cooked'}[locs[i_case][0]]
+            hist['location'][lk] = hist['location'].get(lk, 0) + 1
+            mm = location_mismatch(r, locs[i_case])
+            if mm is not None and not (m is not None and model_expected(r) is not None and norm(model_expected(r)) != norm(m)):
+                short = c['text'] if len(c['text']) < 160 else c['text'][:157] + '...'
+                extra.append(('location-mismatch', 'location:' + c['rule'] + ':' + short,
+                              f'{short!r}: {r["cls"]} ({r["msg"]}): {mm}'))
+        for kind, sig, summary in judge(c, r, m) + extra:
             if kind == 'fold-undetermined':
                 hist.setdefault('fold_undetermined', 0)
                 hist['fold_undetermined'] += 1
